@@ -32,3 +32,9 @@
 (declare-fun pkcs1priv (Int) Bytes)          ; PKCS#1 DER of an RSA private key object
 (declare-fun pkcs1pub (Int Int) Bytes)       ; PKCS#1 RSAPublicKey DER of (modulus, public exponent)
 (assert (forall ((v Int) (n Int)) (! (=> (>= n 0) (= (blen (bePad v n)) n)) :pattern ((bePad v n)))))
+(declare-fun onCurve (Int Int Int) Bool)    ; the point satisfies the curve equation (and is not the point at infinity)
+(assert (forall ((c Int) (d Int)) (! (=> (and (< 0 d) (< d (curveOrder c))) (onCurve c (sbmX c d) (sbmY c d))) :pattern ((sbmX c d)))))
+(declare-fun isPkcs1 (Bytes) Bool)           ; x509.ParsePKCS1PrivateKey accepts the bytes
+(assert (forall ((k Int)) (! (isPkcs1 (pkcs1priv k)) :pattern ((pkcs1priv k)))))
+; (kept out of bytes.smt2: with it z3 answers unknown on goals that need model-based instantiation)
+(assert (forall ((a (Array Int (_ BitVec 8))) (o Int) (n Int)) (! (=> (>= n 0) (= (blen (bytesv a o n)) n)) :pattern ((bytesv a o n)))))
